@@ -1,5 +1,26 @@
 package main
 
+// Self-test of the checker (thorough tier): breaking variants must be reported, equivalent
+// variants must be silent.  Variants are in-memory overlays of the repository's current
+// files (nothing is written into /repo); each is analysed by a child process.
+//
+//   selftest/mutants.json   textual single-site rewrites {id, property, file, old, new, kind, rule}
+//   regress/*.diff          the repairs of the defects found on the pinned tree, applied in
+//                           reverse (re-introducing the defect)
+//   seeded/<id>/patch.diff  changes written by independent agents (applied forward)
+
+import (
+	"encoding/json"
+	"fmt"
+	"os"
+	"os/exec"
+	"path/filepath"
+	"regexp"
+	"sort"
+	"strings"
+	"sync"
+)
+
 type selftestResult struct {
 	Variants   int      `json:"variants"`
 	Killed     int      `json:"killed"`
@@ -11,4 +32,242 @@ type selftestResult struct {
 	Samples    []string `json:"samples"`
 }
 
-func runSelftest(repo, verif, id string) *selftestResult { return nil }
+type mutant struct {
+	ID       string `json:"id"`
+	Property string `json:"property"`
+	File     string `json:"file"`
+	Old      string `json:"old"`
+	New      string `json:"new"`
+	Kind     string `json:"kind"` // break | equiv
+	Rule     string `json:"rule"` // rule expected to report (prefix match), optional
+	Note     string `json:"note,omitempty"`
+	// for patch-based variants
+	patch   string
+	reverse bool
+	// may be known to be outside the reach of the static rules (value-level); then a
+	// survival is recorded but not counted against the checker
+	Expect string `json:"expect,omitempty"` // "" (must be killed) | "miss" (documented limit)
+}
+
+func loadMutants(verif, id string) []mutant {
+	var out []mutant
+	b, err := os.ReadFile(filepath.Join(verif, "selftest", "mutants.json"))
+	if err == nil {
+		var all []mutant
+		if err := json.Unmarshal(b, &all); err == nil {
+			for _, m := range all {
+				if m.Property == id {
+					out = append(out, m)
+				}
+			}
+		} else {
+			fmt.Println("selftest: cannot parse mutants.json:", err)
+		}
+	}
+	// regressions: first line of the patch-adjacent index tells the properties
+	idx, err := os.ReadFile(filepath.Join(verif, "regress", "INDEX.json"))
+	if err == nil {
+		var m map[string]struct {
+			Properties []string `json:"properties"`
+			Rule       map[string]string `json:"rule"`
+		}
+		if json.Unmarshal(idx, &m) == nil {
+			var names []string
+			for n := range m {
+				names = append(names, n)
+			}
+			sort.Strings(names)
+			for _, n := range names {
+				for _, p := range m[n].Properties {
+					if p == id {
+						out = append(out, mutant{ID: "regress/" + n, Property: id, Kind: "break", Rule: m[n].Rule[id], patch: filepath.Join(verif, "regress", n), reverse: true})
+					}
+				}
+			}
+		}
+	}
+	// seeded changes
+	dirs, _ := filepath.Glob(filepath.Join(verif, "seeded", "*", "meta.json"))
+	sort.Strings(dirs)
+	for _, mf := range dirs {
+		b, err := os.ReadFile(mf)
+		if err != nil {
+			continue
+		}
+		var meta struct {
+			Property string `json:"property"`
+			Detected string `json:"detected_by"`
+			Expect   string `json:"expect"`
+		}
+		if json.Unmarshal(b, &meta) != nil || meta.Property != id {
+			continue
+		}
+		out = append(out, mutant{ID: "seeded/" + filepath.Base(filepath.Dir(mf)), Property: id, Kind: "break", Rule: meta.Detected, Expect: meta.Expect, patch: filepath.Join(filepath.Dir(mf), "patch.diff")})
+	}
+	return out
+}
+
+var diffFile = regexp.MustCompile(`(?m)^\+\+\+ b/(\S+)`)
+
+// overlayFor builds the overlay of a variant; ok=false when its target is not present.
+func overlayFor(repo string, m mutant) (map[string]string, bool, string) {
+	if m.patch == "" {
+		path := filepath.Join(repo, m.File)
+		b, err := os.ReadFile(path)
+		if err != nil {
+			return nil, false, "file missing"
+		}
+		src := string(b)
+		if strings.Count(src, m.Old) != 1 {
+			return nil, false, fmt.Sprintf("anchor text occurs %d times", strings.Count(src, m.Old))
+		}
+		return map[string]string{m.File: strings.Replace(src, m.Old, m.New, 1)}, true, ""
+	}
+	pb, err := os.ReadFile(m.patch)
+	if err != nil {
+		return nil, false, "patch missing"
+	}
+	tmp, err := os.MkdirTemp("", "desynclint-variant-")
+	if err != nil {
+		return nil, false, err.Error()
+	}
+	defer os.RemoveAll(tmp)
+	var files []string
+	for _, mm := range diffFile.FindAllStringSubmatch(string(pb), -1) {
+		files = append(files, mm[1])
+	}
+	for _, f := range files {
+		src, err := os.ReadFile(filepath.Join(repo, f))
+		if err != nil {
+			if m.reverse {
+				return nil, false, "file missing: " + f
+			}
+			continue // a patch may add files
+		}
+		os.MkdirAll(filepath.Dir(filepath.Join(tmp, f)), 0o755)
+		os.WriteFile(filepath.Join(tmp, f), src, 0o644)
+	}
+	args := []string{"-p1", "-s", "-f", "--no-backup-if-mismatch", "-d", tmp, "-i", m.patch}
+	if m.reverse {
+		args = append([]string{"-R"}, args...)
+	}
+	if out, err := exec.Command("patch", args...).CombinedOutput(); err != nil {
+		return nil, false, "patch does not apply: " + strings.TrimSpace(string(out))
+	}
+	ov := map[string]string{}
+	for _, f := range files {
+		b, err := os.ReadFile(filepath.Join(tmp, f))
+		if err != nil {
+			continue
+		}
+		ov[f] = string(b)
+	}
+	return ov, true, ""
+}
+
+func runSelftest(repo, verif, id string) *selftestResult {
+	ms := loadMutants(verif, id)
+	res := &selftestResult{Survived: []string{}, Skipped: []string{}, Noisy: []string{}, Samples: []string{}}
+	if len(ms) == 0 {
+		return res
+	}
+	self, err := os.Executable()
+	if err != nil {
+		return res
+	}
+	type outcome struct {
+		m      mutant
+		status string // killed | survived | skipped | silent | noisy
+		detail string
+	}
+	outs := make([]outcome, len(ms))
+	sem := make(chan struct{}, 8)
+	var wg sync.WaitGroup
+	for i, m := range ms {
+		wg.Add(1)
+		go func(i int, m mutant) {
+			defer wg.Done()
+			sem <- struct{}{}
+			defer func() { <-sem }()
+			ov, ok, why := overlayFor(repo, m)
+			if !ok {
+				outs[i] = outcome{m, "skipped", why}
+				return
+			}
+			f, err := os.CreateTemp("", "desynclint-overlay-*.json")
+			if err != nil {
+				outs[i] = outcome{m, "skipped", err.Error()}
+				return
+			}
+			defer os.Remove(f.Name())
+			json.NewEncoder(f).Encode(ov)
+			f.Close()
+			cmd := exec.Command(self, "-property", id, "-tier", "quick", "-repo", repo, "-verif", verif, "-overlay", f.Name(), "-no-evidence")
+			b, _ := cmd.CombinedOutput()
+			code := cmd.ProcessState.ExitCode()
+			text := string(b)
+			switch m.Kind {
+			case "equiv":
+				if code == 0 {
+					outs[i] = outcome{m, "silent", ""}
+				} else {
+					outs[i] = outcome{m, "noisy", firstViolation(text)}
+				}
+			default:
+				switch {
+				case code == 1 && (m.Rule == "" || strings.Contains(text, "rule="+m.Rule)):
+					outs[i] = outcome{m, "killed", firstViolation(text)}
+				case code == 2:
+					outs[i] = outcome{m, "skipped", "variant does not type-check: " + lastLine(text)}
+				default:
+					outs[i] = outcome{m, "survived", fmt.Sprintf("exit %d %s", code, firstViolation(text))}
+				}
+			}
+		}(i, m)
+	}
+	wg.Wait()
+	for _, o := range outs {
+		switch o.status {
+		case "killed":
+			res.Variants++
+			res.Killed++
+			if len(res.Samples) < 6 {
+				res.Samples = append(res.Samples, o.m.ID+": "+o.detail)
+			}
+		case "survived":
+			if o.m.Expect == "miss" {
+				res.Skipped = append(res.Skipped, o.m.ID+": documented limit of the static rules (value-level change), not reported")
+				continue
+			}
+			res.Variants++
+			res.Survived = append(res.Survived, o.m.ID)
+		case "skipped":
+			res.Skipped = append(res.Skipped, o.m.ID+": "+o.detail)
+		case "silent":
+			res.Equivalent++
+			res.Silent++
+		case "noisy":
+			res.Equivalent++
+			res.Noisy = append(res.Noisy, o.m.ID+": "+o.detail)
+		}
+	}
+	return res
+}
+
+func firstViolation(text string) string {
+	for _, l := range strings.Split(text, "\n") {
+		if strings.Contains(l, "violation rule=") {
+			l = strings.TrimSpace(l)
+			if len(l) > 260 {
+				l = l[:260] + "..."
+			}
+			return l
+		}
+	}
+	return ""
+}
+
+func lastLine(text string) string {
+	ls := strings.Split(strings.TrimSpace(text), "\n")
+	return ls[len(ls)-1]
+}
